@@ -2,6 +2,7 @@ package main
 
 import (
 	"bytes"
+	"context"
 	"encoding/hex"
 	"fmt"
 	"regexp"
@@ -208,6 +209,56 @@ func knownFindingReproducers(c *Ctx) {
 		})
 		if pe, ok := err.(*scriggo.PanicError); host != "" || !ok || fmt.Sprint(pe.Message()) != "in goroutine" {
 			c.Fail("goroutine-panic-is-dropped", map[string]string{"source": src, "printed": buf.String(), "host_panic": host, "err": fmt.Sprint(err), "want": "*PanicError in goroutine"})
+		}
+	}
+	// the same with a context in the run options (a context without Done channel, a cancelable one that is
+	// never cancelled), the main function blocked on a receive, on a select and in a loop: Run must return
+	// the panic of the goroutine and must not hang (seeded change C12-g: the failure signal was installed
+	// before the context, which replaced it)
+	{
+		type ctxKey struct{}
+		cancelable, cancel := context.WithCancel(context.Background())
+		defer cancel()
+		ctxs := []struct {
+			name string
+			ctx  context.Context
+		}{{"value-only", context.WithValue(context.Background(), ctxKey{}, 1)}, {"cancelable", cancelable}}
+		waits := []struct{ name, stmt string }{
+			{"receive", "<-done"},
+			{"select", "select {\n\tcase <-done:\n\t}"},
+			{"loop", "for {\n\t\t_ = done\n\t}"},
+			{"range-channel", "for range done {\n\t}"},
+		}
+		for _, cx := range ctxs {
+			for _, w := range waits {
+				src := "package main\nfunc main() {\n\tdone := make(chan bool)\n\tgo func() {\n\t\tpanic(\"in goroutine\")\n\t}()\n\t" + w.stmt + "\n\tprint(1)\n}\n"
+				c.Count("evaluations")
+				type result struct {
+					host string
+					err  error
+				}
+				ch := make(chan result, 1)
+				go func() {
+					var err error
+					host := PanicText(func() {
+						prog, berr := scriggo.Build(scriggo.Files{"main.go": []byte(src)}, &scriggo.BuildOptions{AllowGoStmt: true})
+						if berr != nil {
+							err = berr
+							return
+						}
+						err = prog.Run(&scriggo.RunOptions{Context: cx.ctx, Print: func(any) {}})
+					})
+					ch <- result{host, err}
+				}()
+				select {
+				case r := <-ch:
+					if pe, ok := r.err.(*scriggo.PanicError); r.host != "" || !ok || fmt.Sprint(pe.Message()) != "in goroutine" {
+						c.Fail("goroutine-panic-with-context-not-returned", map[string]string{"source": src, "context": cx.name, "wait": w.name, "host_panic": r.host, "err": fmt.Sprint(r.err), "want": "*PanicError in goroutine"})
+					}
+				case <-time.After(10 * time.Second):
+					c.Fail("goroutine-panic-with-context-hangs", map[string]string{"source": src, "context": cx.name, "wait": w.name, "want": "Run returns the *PanicError of the goroutine", "got": "Run did not return within 10 s"})
+				}
+			}
 		}
 	}
 	// run-time faults must carry the path and the position of the faulting statement (line 4 in each program)
